@@ -64,6 +64,13 @@ LEMMAS = {
     'psd': dict(
         file='lean/Psd.lean', theorems=['quad_weighted_outer', 'weighted_outer_posSemidef'],
         statement='m_t >= 0  =>  sum_t m_t x_t x_t^H is Hermitian positive semidefinite; v^H (sum_t m_t x_t x_t^H) v = sum_t m_t |v^H x_t|^2   (all D, T)'),
+    'em': dict(
+        file='lean/Em.lean', theorems=['gibbs_lower_bound', 'em_step_one', 'em_monotone', 'weight_update_maximises'],
+        statement='a, a\' > 0 joint values pi_k p_k(y_n) before / after an update, gamma = a / sum_k a: '
+                  'sum gamma log a <= sum gamma log a\'  =>  sum_n log sum_k a <= sum_n log sum_k a\'; '
+                  'pi = c / sum c maximises sum_k c_k log pi_k on the simplex   (all K, N)',
+        assumptions=['each component update does not decrease its part of the expected complete-data log-likelihood '
+                     '(ML estimators in closed form, cACG / Watson fixed-point steps): cited, not machine checked']),
     'logdet': dict(
         file='lean/LogDet.lean', theorems=['det_cholesky', 'log_det_cholesky'],
         statement='L lower triangular with positive diagonal  =>  log det(L L^T) = 2 sum_i log L_ii   (all dimensions)'),
